@@ -12,14 +12,14 @@ import (
 func init() {
 	register(&PropDef{
 		ID: "C19", Level: "exploration", Quick: 400000, Thorough: 3000000, QuickCap: 100,
-		Rule: "each run = 2-4 tasks x 1-3 rounds over 1-2 keys calling Lock/Unlock/Run on the real TransientLockMap, with 0-2 context-cancel events (as separate tasks or becoming visible inside one of the Err calls of the context), Run callbacks that panic, and optional bad-unlock calls (of unknown keys and of real keys nobody holds), interleaved at every internal step by the seeded scheduler; distinct = distinct hash of the (task, scheduling point) trace; non-trivial = at least one preemption or one cancel event",
+		Rule: "each run = 2-4 tasks x 1-3 rounds over 1-2 keys calling Lock/Unlock/Run on the real TransientLockMap, with 0-2 context-cancel events (as separate tasks or becoming visible inside one of the Err calls of the context), Run callbacks that panic, and optional bad-unlock calls (of unknown keys and of real keys nobody holds), interleaved at every internal step by the seeded scheduler; one run in eight is the racing-unlocks sub-workload: 2-3 callers Lock/Unlock one key while 1-2 callers that never locked call Unlock on it (legal while the key is held - the map keeps no owner -, a panic that changes nothing otherwise), the history checked with porcupine against an ownerless-lock model, then no entry may remain and the key must be lockable at once; distinct = distinct hash of the (task, scheduling point) trace; non-trivial = at least one preemption or one cancel event",
 		Real: []string{"gcsutil.TransientLockMap (Lock, Unlock, Run, returnLockObj)", "gcsutil.countedLock"},
 		Stub: []string{"Go channel blocking in countedLock.Lock is replaced by a wait-until in front of it (the simulator decides the order of cancel and unlock events, so the two-ready-cases select is never reached with both ready)"},
 		Assume: []string{"seeded search, not exhaustive enumeration: the number of distinct interleavings reached is reported",
 			"when a cancelled waiter and a free slot coincide the real runtime may let either case of the select win; the simulation always takes the cancellation (the property allows both)"},
 		Run: runC19,
 	})
-	expectedProbes["C19"] = []string{"c19.waited", "c19.cancel_while_queued", "c19.lock_false", "c19.bad_unlock_panicked", "c19.two_keys_overlap"}
+	expectedProbes["C19"] = []string{"c19.waited", "c19.cancel_while_queued", "c19.lock_false", "c19.bad_unlock_panicked", "c19.two_keys_overlap", "c19.foreign_unlock_released_a_held_key", "c19.foreign_unlock_panicked", "c19.racing_unlocks_linearizable"}
 }
 
 // c19ManyKeys: "independent keys never block each other" for a large number of keys held at
@@ -78,6 +78,10 @@ func runC19(r *Run) {
 		return
 	}
 	cfg := r.T.S("cfg")
+	if cfg.Intn(8) == 7 {
+		c19RacingUnlocks(r, cfg)
+		return
+	}
 	nTasks := 2 + cfg.Intn(3)
 	nKeys := 1 + cfg.Intn(2)
 	rounds := 1 + cfg.Intn(3)
